@@ -1549,6 +1549,8 @@ fn builder(out: &mut Out, rng: &mut Rng, thorough: bool) {
 			1 => 1,
 			2 => u64::MAX,
 			3 => u64::MAX - 60_000_000_000,
+			// around the 40-bit fee field of a single kernel (a block's fees are a u64 sum and may exceed it)
+			4 => [(1u64 << 40) - 1, 1 << 40, (1 << 40) + 1, u64::MAX - 60_000_000_000 + 1, u64::MAX - 60_000_000_000 - 1, 15 << 40][(case / 6) % 6],
 			_ => rng.below(1 << 40),
 		};
 		let legacy = case % 4 == 3;
@@ -1708,10 +1710,14 @@ fn viewkey(out: &mut Out, rng: &mut Rng, thorough: bool) {
 		let keychain = ExtKeychain::from_seed(&seed, is_test).unwrap();
 		let other = ExtKeychain::from_seed(&rng.bytes(32), is_test).unwrap();
 		let nb = ProofBuilder::new(&keychain);
-		// view-key paths: depth 0..=3, every hardened/normal pattern
+		// view-key paths: depth 0..=4, every hardened/normal pattern (depth 4: the view key of one
+		// single output key - nothing can follow; quick tier: every second pattern)
 		let mut vk_paths: Vec<Vec<u32>> = vec![vec![]];
-		for d in 1..=3usize {
+		for d in 1..=4usize {
 			for pat in 0..(1u32 << d) {
+				if d == 4 && !thorough && pat % 2 == 1 {
+					continue;
+				}
 				let reps = if d == 1 { 3 } else { 1 };
 				for _ in 0..reps {
 					let p: Vec<u32> = (0..d)
@@ -2590,6 +2596,34 @@ fn sigs(out: &mut Out, rng: &mut Rng, thorough: bool) {
 			}
 		}
 	}
+	// sign_with_blinding on chosen blinding factors: signs / Err / PANIC with the exact condition
+	// (zero factor: ExtKeychain::sign_with_blinding panics, aggsig::sign_with_blinding signs; bytes
+	// that are no scalar: Err in both)
+	{
+		use grin_util::secp::Message;
+		let kc = ExtKeychain::from_seed(&rng.bytes(32), true).unwrap();
+		let secp = kc.secp();
+		let mut vals: Vec<[u8; 32]> = vec![[0u8; 32], small(1), small(2), sub_small(&ORDER, 1), ORDER, add_small(&ORDER, 1), [0xffu8; 32]];
+		for _ in 0..(if thorough { 40 } else { 10 }) {
+			vals.push(gen_scalar(rng, true, true));
+		}
+		let mut hist: std::collections::BTreeMap<String, u64> = Default::default();
+		for v in vals {
+			let msg = Message::from_slice(&rng.bytes(32)).unwrap();
+			let bf = BlindingFactor::from_slice(&v);
+			let show = |r: Result<bool, String>| match r {
+				Ok(true) => "ok",
+				Ok(false) => "err",
+				Err(_) => "panic",
+			};
+			let a = show(catch(AssertUnwindSafe(|| kc.sign_with_blinding(&msg, &bf).is_ok())));
+			let b = show(catch(AssertUnwindSafe(|| aggsig::sign_with_blinding(secp, &msg, &bf, None).is_ok())));
+			*hist.entry(format!("keychain={} aggsig={}", a, b)).or_insert(0) += 1;
+			out.line(&format!("keys signb keychain {}", hex(&v)), a);
+			out.line(&format!("keys signb aggsig {}", hex(&v)), b);
+		}
+		out.raw(&format!("#STAT sigs sign_with_blinding outcomes: {:?}", hist));
+	}
 	for (k, (cnt, bad)) in &stats {
 		out.raw(&format!("#STAT sigs {}: {} cases, {} against the rule", k, cnt, bad));
 	}
@@ -3147,6 +3181,33 @@ fn nonces(out: &mut Out, rng: &mut Rng, thorough: bool) {
 			out.raw(&format!("#STAT nonces mnemonic {}: {} cases, {} against the rule", k, cnt, bad));
 		}
 	}
+	// child numbers at the 2^31 boundary: the index constructors (assert: panic from 2^31 on), and the
+	// children of one parent named by the words around the boundary are pairwise different keys
+	{
+		use grin_keychain::extkey_bip32::BIP32GrinHasher;
+		let idxs: [u32; 9] = [0, 1, 0x7fff_fffe, 0x7fff_ffff, 0x8000_0000, 0x8000_0001, 0xffff_fffe, 0xffff_ffff, rng.next() as u32];
+		for i in idxs {
+			for hardened in [false, true] {
+				let r = catch(AssertUnwindSafe(|| if hardened { ChildNumber::from_hardened_idx(i) } else { ChildNumber::from_normal_idx(i) }));
+				let s = match r {
+					Ok(c) => format!("ok:{}:{}", u32::from(c), if c.is_hardened() { "hardened" } else { "normal" }),
+					Err(_) => "panic".to_string(),
+				};
+				out.line(&format!("keys cnidx {} {}", if hardened { "hardened" } else { "normal" }, i), &s);
+			}
+		}
+		let kc = ExtKeychain::from_seed(&rng.bytes(32), true).unwrap();
+		let secp = kc.secp();
+		let parent = kc.master.ckd_priv(secp, &mut BIP32GrinHasher::new(true), ChildNumber::from(rng.next() as u32)).unwrap();
+		let words: [u32; 8] = [0, 1, 0x7fff_fffe, 0x7fff_ffff, 0x8000_0000, 0x8000_0001, 0xffff_fffe, 0xffff_ffff];
+		let kids: Vec<[u8; 32]> = words.iter().map(|w| parent.ckd_priv(secp, &mut BIP32GrinHasher::new(true), ChildNumber::from(*w)).unwrap().secret_key.0).collect();
+		for a in 0..words.len() {
+			for b in 0..words.len() {
+				let again = parent.ckd_priv(secp, &mut BIP32GrinHasher::new(true), ChildNumber::from(words[b])).unwrap().secret_key.0;
+				out.line(&format!("keys ckdsame {} {}", words[a], words[b]), if kids[a] == again { "same" } else { "differs" });
+			}
+		}
+	}
 	// BlindingFactor::from_slice / from_hex / from_secret_key on 0..40 bytes
 	for len in 0..=40usize {
 		for rep in 0..(if thorough { 6 } else { 2 }) {
@@ -3161,6 +3222,97 @@ fn nonces(out: &mut Out, rng: &mut Rng, thorough: bool) {
 		}
 	}
 	out.raw(&format!("#STAT nonces: {:?}", stat));
+}
+
+// ---------------------------------------------------------------------------------------------
+// mnemonic: BIP39 bit packing (keychain/src/mnemonic.rs) against the model, words as indexes
+// ---------------------------------------------------------------------------------------------
+
+fn mnemonic_run(out: &mut Out, rng: &mut Rng, thorough: bool) {
+	use grin_keychain::mnemonic;
+	let mut stat: std::collections::BTreeMap<String, u64> = Default::default();
+	let err_s = |e: &mnemonic::Error| -> String {
+		match e {
+			mnemonic::Error::BadWord(_) => "err:BadWord".to_string(),
+			mnemonic::Error::BadChecksum(given, actual) => format!("err:BadChecksum({},{})", given, actual),
+			mnemonic::Error::InvalidLength(n) => format!("err:InvalidLength({})", n),
+		}
+	};
+	// a word list as indexes (an unknown word is printed as 2048); the implementation gets the words
+	let word_of = |i: u16| -> String { mnemonic::WORDS[i as usize].clone() };
+	let to_line = |out: &mut Out, stat: &mut std::collections::BTreeMap<String, u64>, idx: &[u16], what: &str| {
+		let words: Vec<String> = idx.iter().map(|i| if *i >= 2048 { "zzzzzz".to_string() } else { word_of(*i) }).collect();
+		let r = catch(AssertUnwindSafe(|| mnemonic::to_entropy(&words.join(" "))));
+		let s = match r {
+			Ok(Ok(e)) => hex(&e),
+			Ok(Err(e)) => err_s(&e),
+			Err(_) => "panic".to_string(),
+		};
+		let kind = if s.starts_with("err:BadChecksum") { "BadChecksum" } else if s.starts_with("err:") { &s[4..s.find('(').unwrap_or(s.len())] } else if s == "panic" { "panic" } else { "ok" };
+		*stat.entry(format!("to_entropy {}: {}", what, kind)).or_insert(0) += 1;
+		out.line(&format!("keys mnto {}", nat_list(&idx.iter().map(|x| *x as u64).collect::<Vec<_>>())), &s);
+	};
+	let reps = if thorough { 1500 } else { 200 };
+	for len in 0..=40usize {
+		let valid = [16usize, 20, 24, 28, 32].contains(&len);
+		for rep in 0..(if valid { reps } else { 2 }) {
+			let entropy: Vec<u8> = match rep {
+				0 => vec![0u8; len],
+				1 => vec![0xffu8; len],
+				2 => (0..len).map(|i| if i == 0 { 0x80 } else { 0 }).collect(),
+				3 => (0..len).map(|i| if i + 1 == len { 1 } else { 0 }).collect(),
+				_ => rng.bytes(len),
+			};
+			let r = catch(AssertUnwindSafe(|| mnemonic::from_entropy(&entropy)));
+			let (s, idx): (String, Option<Vec<u16>>) = match r {
+				Ok(Ok(m)) => {
+					let idx: Vec<u16> = m.split_whitespace().map(|w| mnemonic::search(w).unwrap()).collect();
+					(nat_list(&idx.iter().map(|x| *x as u64).collect::<Vec<_>>()), Some(idx))
+				}
+				Ok(Err(e)) => (err_s(&e), None),
+				Err(_) => ("panic".to_string(), None),
+			};
+			*stat.entry(format!("from_entropy {}: {}", if valid { format!("{} bytes", len) } else { "of another length (0..40)".to_string() }, if idx.is_some() { "ok" } else { "refused" })).or_insert(0) += 1;
+			out.line(&format!("keys mnfrom {}", hex(&entropy)), &s);
+			let idx = match idx {
+				Some(i) => i,
+				None => continue,
+			};
+			// back
+			to_line(out, &mut stat, &idx, "honest");
+			let n = idx.len();
+			let cs = n / 3;
+			// a checksum bit of the last word flipped: always refused
+			let mut c = idx.clone();
+			c[n - 1] ^= 1 << rng.below(cs as u64);
+			to_line(out, &mut stat, &c, "checksum bit flipped");
+			if rep % 3 == 0 {
+				// a data bit flipped somewhere (accepted when the checksum bits happen to agree)
+				let mut c = idx.clone();
+				let wi = rng.below(n as u64) as usize;
+				let lo = if wi == n - 1 { cs as u64 } else { 0 };
+				c[wi] ^= 1 << rng.range(lo, 10);
+				to_line(out, &mut stat, &c, "data bit flipped");
+				// two words exchanged
+				let mut c = idx.clone();
+				c.swap(0, n - 1);
+				to_line(out, &mut stat, &c, "first and last word exchanged");
+				// a word too few / too many, an unknown word (the length is looked at first)
+				to_line(out, &mut stat, &idx[1..], "one word short");
+				let mut c = idx.clone();
+				c.push(idx[0]);
+				to_line(out, &mut stat, &c, "one word more");
+				let mut c = idx.clone();
+				c[rng.below(n as u64) as usize] = 2048;
+				to_line(out, &mut stat, &c, "unknown word");
+				let mut c = idx[1..].to_vec();
+				c[0] = 2048;
+				to_line(out, &mut stat, &c, "unknown word and one word short");
+			}
+		}
+	}
+	to_line(out, &mut stat, &[], "no word");
+	out.raw(&format!("#STAT mnemonic: {:?}", stat));
 }
 
 // ---------------------------------------------------------------------------------------------
@@ -3361,6 +3513,7 @@ fn main() {
 		"sigs" => sigs(&mut out, &mut rng, thorough),
 		"exchange" => exchange(&mut out, &mut rng, thorough),
 		"nonces" => nonces(&mut out, &mut rng, thorough),
+		"mnemonic" => mnemonic_run(&mut out, &mut rng, thorough),
 		"malleable" => malleable(&mut out, &mut rng),
 		_ => {
 			eprintln!("unknown mode {}", mode);
